@@ -4,6 +4,7 @@ import (
 	"context"
 	"fmt"
 	"net/http"
+	"strings"
 
 	"github.com/rs/zerolog/log"
 	"github.com/semafind/semadb/httpapi/utils"
@@ -28,6 +29,11 @@ func AppHeaderMiddleware(userPlans map[string]models.UserPlan, next http.Handler
 		}
 		if appHeaders.UserId == "" || appHeaders.PlanId == "" {
 			utils.Encode(w, http.StatusBadRequest, map[string]string{"error": "missing X-User-Id or X-Plan-Id headers"})
+			return
+		}
+		// The user id becomes a key prefix and a directory name
+		if appHeaders.UserId == "." || appHeaders.UserId == ".." || strings.ContainsAny(appHeaders.UserId, "/\\") {
+			utils.Encode(w, http.StatusBadRequest, map[string]string{"error": "invalid X-User-Id header"})
 			return
 		}
 		log.Debug().Interface("appHeaders", appHeaders).Msg("AppHeaderMiddleware")
